@@ -221,9 +221,13 @@ def _elem_component(t, k, reversed_, owner):
     return x
   it = unwrap(it)
   if reversed_:
-    if not (it.op == 'call' and it.args[0].op == 'builtin' and it.args[0].args[0] == 'reversed'):
+    if it.op == 'call' and it.args[0].op == 'builtin' and it.args[0].args[0] == 'reversed':
+      it = unwrap(it.args[1][0])
+    elif it.op == 'sub' and it.args[1].op == 'slice' and is_const(it.args[1].args[0], None) and is_const(it.args[1].args[1], None) and \
+        is_const(it.args[1].args[2], -1):
+      it = unwrap(it.args[0])          # x[::-1]
+    else:
       return False
-    it = unwrap(it.args[1][0])
   else:
     if it.op == 'call':
       return False
